@@ -202,3 +202,25 @@ Example C01_source_example :
   ImpGen.imp_fasta_Fasta_Write 200 (ImpProofsG.fa_of {| Bio.Model.Fasta.name := bs "n"; Bio.Model.Fasta.seq := repeat 65%N 81 |})
   = GoSem.Ret ([bs ">n" ++ [10%N]; repeat 65%N 80 ++ [10%N]; [65%N; 10%N]], false).
 Proof. vm_compute. reflexivity. Qed.
+
+From Bio.Proofs Require ImpProofsJ.
+
+(* reader.read as translated from fasta.go — the four-state machine over ReadByte, the
+   UnreadByte + labelled break on a '>' at the start of a line, and the three-way ending
+   (nothing read: the stream's error; a non-EOF error: that error; otherwise the record) —
+   returns, for every input and both terminal conditions, what the model's read_one returns,
+   and leaves the reader exactly at the bytes the model leaves unread.  The *bufio.Reader is
+   the value GoSem.go_stream (bytes to come, terminal error, last byte read); fuel above the
+   input length runs the loop to its end. *)
+Theorem C01_read_is_source : forall fuel inp t, (length inp + 2 < fuel)%nat ->
+  ImpGen.imp_fastard_reader_read fuel (GoSem.Stream inp (ImpProofsJ.term_code t) None)
+  = ImpProofsJ.fr_read_result t (Bio.Model.Fasta.read_one inp t).
+Proof. exact ImpProofsJ.imp_fasta_read. Qed.
+Print Assumptions C01_read_is_source.
+
+Example C01_source_read_example :
+  ImpGen.imp_fastard_reader_read 40 (GoSem.Stream (bs ">a" ++ [10%N] ++ bs "AC" ++ [13%N; 10%N] ++ bs "GT" ++ [10%N] ++ bs ">b") 1%Z None)
+  = GoSem.Ret (GoSem.Stream (bs ">b") 1%Z None, (ImpGen.Imp_fastard_Fasta (bs "a") (bs "ACGT"), 0%Z))
+  /\ ImpGen.imp_fastard_reader_read 5 (GoSem.Stream [] 1%Z None) = GoSem.Ret (GoSem.Stream [] 1%Z None, (ImpGen.Imp_fastard_Fasta [] [], 1%Z))
+  /\ ImpGen.imp_fastard_reader_read 9 (GoSem.Stream (bs ">a") 2%Z None) = GoSem.Ret (GoSem.Stream [] 2%Z None, (ImpGen.Imp_fastard_Fasta [] [], 2%Z)).
+Proof. vm_compute. repeat split. Qed.
